@@ -84,6 +84,19 @@ def slices(tier):
         # second derivatives
         Slice("d2", [F, U], D2, 4, idx=(10,), levels=[{"grad", "nabla_grad"}, {"grad", "div", "nabla_div", "dx"}, {"inner", "index", "tr", "dot"}, PIPE], mikinds=("fixed",), chain="strict", **kwo([1, 6, 8])),
     ]
+    # Piola-mapped fields: the pool holds physical values/gradients; after pullbacks the integrand is read in the reference
+    # frame, where the reference value is the inverse Piola map of the physical data (vf/pipeenv.py RefEnv._piola)
+    PO = dict(GOPTS, q={"pullback": "contravariant"}, r={"pullback": "covariant"}, S={"pullback": "double_contravariant"},
+              E={"pullback": "double_covariant"}, T={"pullback": "covariant_contravariant"}, p={"pullback": "l2"})
+
+    def kwp(idx):
+        sel = ov if (idx is None or not q) else [ov[i] for i in idx]
+        return dict(finalops=PIPE, only_final=True, nenv=2, pipeline=dict(options=sel, opts=PO))
+
+    out += [
+        Slice("piola-v", [("q", (2,)), ("r", (2,)), ("p", ()), F], D2 | SC, 3, idx=(10,), levels=[{"div", "curl", "grad", "dot", "mul", "index"}, {"inner", "dot", "index", "mul", "tr"}, PIPE], mikinds=("fixed",), chain=True, **kwp([1, 2, 8])),
+        Slice("piola-t", [("S", (2, 2)), ("E", (2, 2)), ("T", (2, 2)), U], SC | {"div", "tr", "det", "transpose"}, 3, idx=(10,), levels=[{"div", "dot", "index", "tr", "det", "transpose", "inner"}, {"inner", "dot", "index", "tr"}, PIPE], mikinds=("fixed",), chain=True, **kwp([1, 8])),
+    ]
     if not q:
         out += [
             Slice("d-expr-wide", [F, G, X], D2 | SC, 4, idx=(10,), levels=[{"mul", "div", "dot"}, {"grad", "div", "dx"}, {"inner", "index", "mul"}, PIPE], mikinds=("fixed",), chain="strict", **kw),
